@@ -24,7 +24,7 @@ def build_case(rng, cid):
 
 def add_gets(lines, snap, rng):
     """append look-ups chosen from the object's real shape (taken from the C++ snapshot)"""
-    g = []
+    g = ['get.vec 0']      # the same containers through the getters that return whole vectors
     nf = len(snap.frames)
     for i in idx_set(nf, rng): g.append('get.frame 0 %d' % i)
     for fi in sorted(set([0, nf - 1, nf]) & set(range(nf + 1))):
